@@ -303,7 +303,11 @@ def run(pid, tier, seed, replay_path=None):
             info["check_block"] = {"bfs": binfo}
             info["functions_encoded"].append(f"checker::bfs::check_block (MIR sha256 {binfo['mir_sha256']}, {binfo['blocks']} basic blocks, {binfo['round_paths']} paths per job, inner loops {binfo['inner_loops_havocked']} abstracted by havoc)")
             seen_kinds = set()
-            allres = res + blockloop.initial_depth("bfs", mir_text) + checks.single_thread_broker(bm) + [checks.bfs_order_induction()]
+            sres, sinfo = spawnflow.obligations("bfs", mir_text, open(os.path.join(d, "sr", "src", "checker.rs")).read())
+            info["spawn"] = {"bfs": sinfo}
+            info["functions_encoded"].append(f"checker::bfs spawn() ({sinfo['blocks']} basic blocks, loops {sinfo['loops_havocked']} havocked, {sinfo['paths']} paths)")
+            sres = [o for o in sres if "one batch" in o["obligation"] or "thread_count" in o["obligation"]]
+            allres = res + blockloop.initial_depth("bfs", mir_text) + sres + checks.single_thread_broker(bm) + [checks.bfs_order_induction()]
             for o in allres:
                 if "target_max_depth" in o["obligation"] and "skipped only" in o["obligation"]:
                     pass  # D1 belongs to C12 but is harmless here: kept, it is part of what makes depth labels meaningful
@@ -641,6 +645,42 @@ impl Model for G {
     }
 }
 
+/// More states than one 1500-job block: 0 -> 1..=1700; 1 -> 10001 -> 99999; 1500 -> 99999.
+struct Big;
+impl Big {
+    fn succ(s: u32) -> Vec<u32> {
+        match s { 0 => (1..=1700).collect(), 1 => vec![10001], 10001 => vec![99999], 1500 => vec![99999], _ => vec![] }
+    }
+}
+impl Model for Big {
+    type State = u32;
+    type Action = u32;
+    fn init_states(&self) -> Vec<u32> { vec![0] }
+    fn actions(&self, s: &u32, a: &mut Vec<u32>) { a.extend(Big::succ(*s)); }
+    fn next_state(&self, _s: &u32, a: u32) -> Option<u32> { Some(a) }
+    fn properties(&self) -> Vec<Property<Self>> { vec![Property::sometimes("goal", |_, s| *s == 99999)] }
+}
+
+#[test]
+fn verif_bfs_order_across_block_boundaries() {
+    let dist = |s: u32| -> usize { match s { 0 => 0, 1..=1700 => 1, 10001 => 2, 99999 => 2, _ => unreachable!() } };
+    let (rec, evaluated) = StateRecorder::new_with_accessor();
+    let (tx, rx) = std::sync::mpsc::channel();
+    std::thread::spawn(move || { let _ = tx.send(Big.checker().threads(1).visitor(rec).spawn_bfs().join()); });
+    let checker = match rx.recv_timeout(std::time::Duration::from_secs(30)) {
+        Ok(c) => c,
+        Err(_) => { println!("VIOLATION BFS order: the check of a 1703-state graph did not finish within 30 s"); std::process::exit(1) }
+    };
+    let mut last = 0;
+    for s in evaluated() {
+        let d = dist(s);
+        assert!(d >= last, "VIOLATION BFS order: state {} at distance {} evaluated after a state at distance {} (1703-state graph)", s, d, last);
+        last = d;
+    }
+    let len = checker.discovery("goal").expect("reachable").into_states().len() - 1;
+    assert!(len == 2, "VIOLATION BFS order: witness for goal has {} transitions, the shortest has 2", len);
+}
+
 #[test]
 fn verif_single_threaded_bfs_order_and_shortest_witnesses() {
     // reference distances
@@ -784,7 +824,7 @@ def _integration_test(d, v, code, fname, marker):
             return None, "native demonstration did not finish within 600 s"
         if marker in r.stdout:
             _WORKER_REPLAYS[code] = (True, r.stdout[-1500:])
-        elif re.search(r"test result: ok\. 1 passed", r.stdout):
+        elif re.search(r"test result: ok\. [1-9]\d* passed; 0 failed", r.stdout):
             _WORKER_REPLAYS[code] = (False, r.stdout[-800:])
         else:
             return None, r.stdout[-1500:]
